@@ -99,8 +99,12 @@ class PosInterp:
     MAX_STEPS = 50000
     tag = 'POS-SEM'
 
-    def __init__(self, ts: TS, script: list[int]) -> None:
+    def __init__(self, ts: TS, script: list[int], module: Any = None) -> None:
         self.ts = ts
+        self.p = ts.p
+        self.mod = module or ts.m
+        self.funcs: dict[str, FuncInfo] = ts.funcs if module is None else {
+            f.qualname: f for f in ts.p.functions_in(module) if f.kind != 'overload' and f.parent is None}
         self.script = script
         self.pos = 0
         self.taken: list[tuple[int, int, str]] = []
@@ -134,15 +138,19 @@ class PosInterp:
 
     # -- classes -------------------------------------------------------------------
     def fields_of(self, cls: str) -> list[tuple[str, Optional[ast.AST]]]:
-        ci = self.ts.p.cls(cls, 'token_store')
+        ci = self._cls(cls)
         out = []
         for st in ci.node.body:
             if isinstance(st, ast.AnnAssign) and isinstance(st.target, ast.Name):
                 out.append((st.target.id, st.value))
         return out
 
+    def _cls(self, name: str) -> Any:
+        cands = [c for c in self.mod.classes if c.name == name]
+        return cands[0] if cands else self.p.cls(name)
+
     def is_dataclass(self, cls: str) -> bool:
-        ci = self.ts.p.cls(cls, 'token_store')
+        ci = self._cls(cls)
         return any('dataclass' in norm(d) for d in ci.node.decorator_list)
 
     def instantiate(self, cls: str, args: list, kwargs: dict, node: ast.AST) -> Obj:
@@ -173,7 +181,7 @@ class PosInterp:
         return o
 
     def method(self, cls: str, name: str) -> Optional[FuncInfo]:
-        return self.ts.funcs.get(f'{cls}.{name}')
+        return self.funcs.get(f'{cls}.{name}')
 
     # -- calls -----------------------------------------------------------------------
     def call_function(self, fn: FuncInfo, args: list, kwargs: dict) -> Any:
@@ -213,15 +221,33 @@ class PosInterp:
                     raise self.err(node, 'range over symbolic bounds')
                 return list(range(*args))
             if n == 'enumerate':
-                return [(i, x) for i, x in enumerate(args[0])]
-            if n == 'list':
-                return list(args[0]) if args else []
+                return [(i, x) for i, x in enumerate(self.iter_of(args[0], node), *args[1:])]
+            if n in ('list', 'tuple', 'iter'):
+                r_ = self.iter_of(args[0], node) if args else []
+                return tuple(r_) if n == 'tuple' else r_
+            if n == 'reversed':
+                return list(reversed(self.iter_of(args[0], node)))
+            if n == 'zip':
+                return [tuple(x) for x in zip(*[self.iter_of(a, node) for a in args])]
+            if n == 'next':
+                seq = self.iter_of(args[0], node)
+                if seq:
+                    return seq[0]
+                if len(args) > 1:
+                    return args[1]
+                raise Raised('StopIteration')
+            if n in ('any', 'all'):
+                vals_ = [self.truth(x, node) for x in self.iter_of(args[0], node)]
+                return any(vals_) if n == 'any' else all(vals_)
+            if n == 'dict':
+                return dict(args[0]) if args else {}
             if n == 'isinstance':
                 v, c = args
                 if isinstance(c, ClassRef):
                     return isinstance(v, Obj) and v.cls == c.name
-                if isinstance(c, Builtin) and c.name == 'list':
-                    return isinstance(v, list)
+                if isinstance(c, Builtin) and c.name in ('list', 'str', 'int', 'tuple', 'dict'):
+                    return isinstance(v, {'list': list, 'str': str, 'int': int, 'tuple': tuple, 'dict': dict}[c.name]) and not (
+                        c.name == 'int' and isinstance(v, bool))
                 raise self.err(node, 'isinstance')
             if n in ('max', 'min'):
                 vals = list(args[0]) if len(args) == 1 and isinstance(args[0], (list, tuple)) else list(args)
@@ -294,9 +320,7 @@ class PosInterp:
                     continue
             self.block(st.orelse, env)
         elif isinstance(st, ast.For):
-            it = self.expr(st.iter, env)
-            if not isinstance(it, (list, tuple)):
-                raise self.err(st, f'loop over {it!r}')
+            it = self.iter_of(self.expr(st.iter, env), st)
             for x in list(it):
                 self.assign(st.target, x, env)
                 try:
@@ -332,6 +356,27 @@ class PosInterp:
                     del base[self.expr(t.slice, env)]
         else:
             raise self.err(st, 'statement')
+
+    def iter_of(self, v: Any, node: ast.AST) -> list:
+        if isinstance(v, (list, tuple)):
+            return list(v)
+        if isinstance(v, dict):
+            return list(v)
+        raise self.err(node, f'iteration over {v!r}')
+
+    def comprehension(self, e: Any, env: dict) -> list:
+        """list of environments after running the generators of a comprehension"""
+        envs = [dict(env)]
+        for g in e.generators:
+            nxt = []
+            for en in envs:
+                for x in self.iter_of(self.expr(g.iter, en), g.iter):
+                    e2 = dict(en)
+                    self.assign(g.target, x, e2)
+                    if all(self.truth(self.expr(c, e2), c) for c in g.ifs):
+                        nxt.append(e2)
+            envs = nxt
+        return envs
 
     def assign(self, t: ast.AST, v: Any, env: dict) -> None:
         if isinstance(t, ast.Name):
@@ -416,6 +461,9 @@ class PosInterp:
         if isinstance(op, (ast.Eq, ast.NotEq)):
             eq = a == b
             return eq if isinstance(op, ast.Eq) else not eq
+        if isinstance(op, (ast.In, ast.NotIn)):
+            found = a in (b if isinstance(b, (dict, str)) else self.iter_of(b, node))
+            return found if isinstance(op, ast.In) else not found
         raise self.err(node, f'comparison of {a!r} and {b!r}')
 
     def expr(self, e: Optional[ast.AST], env: dict) -> Any:
@@ -428,14 +476,14 @@ class PosInterp:
                 return env[e.id]
             if e.id in ('Position', '_StoreHandle', '_StoreBlock'):
                 return ClassRef(e.id)
-            if e.id in ('len', 'range', 'enumerate', 'list', 'isinstance', 'max', 'min', 'bool', 'abs'):
+            if e.id in ('len', 'range', 'enumerate', 'list', 'isinstance', 'max', 'min', 'bool', 'abs', 'next', 'reversed', 'tuple', 'str', 'int', 'dict', 'iter', 'any', 'all', 'sorted', 'zip'):
                 return Builtin(e.id)
             if e.id == 'NotImplemented':
                 return 'NotImplemented'
-            fn = self.ts.funcs.get(e.id)
+            fn = self.funcs.get(e.id)
             if fn is not None:
                 return fn
-            for st in self.ts.m.tree.body:
+            for st in self.mod.tree.body:
                 if isinstance(st, ast.Assign) and len(st.targets) == 1 and isinstance(st.targets[0], ast.Name) and st.targets[0].id == e.id:
                     return self.expr(st.value, {})          # module constant (_LOAD_FACTOR and friends)
             raise self.err(e, 'name')
@@ -456,6 +504,8 @@ class PosInterp:
                     return Bound(base, m) if m.kind == 'classmethod' else m
             if isinstance(base, list) and e.attr in ('append', 'extend', 'pop'):
                 return _ListAppend(base, e.attr)
+            if isinstance(base, dict) and e.attr in ('get', 'items', 'keys', 'values', 'pop', 'setdefault'):
+                return _DictMethod(base, e.attr)
             raise self.err(e, 'attribute')
         if isinstance(e, ast.Subscript):
             base = self.expr(e.value, env)
@@ -505,12 +555,44 @@ class PosInterp:
             return tuple(self.expr(x, env) for x in e.elts)
         if isinstance(e, ast.List):
             return [self.expr(x, env) for x in e.elts]
+        if isinstance(e, (ast.ListComp, ast.GeneratorExp)):
+            return [self.expr(e.elt, en) for en in self.comprehension(e, env)]
+        if isinstance(e, ast.SetComp):
+            out_l: list = []
+            for en in self.comprehension(e, env):
+                v_ = self.expr(e.elt, en)
+                if v_ not in out_l:
+                    out_l.append(v_)
+            return out_l
+        if isinstance(e, ast.DictComp):
+            d_: dict = {}
+            for en in self.comprehension(e, env):
+                d_[self.expr(e.key, en)] = self.expr(e.value, en)
+            return d_
+        if isinstance(e, ast.Dict):
+            return {self.expr(k, env): self.expr(v_, env) for k, v_ in zip(e.keys, e.values)}
+        if isinstance(e, ast.NamedExpr):
+            v_ = self.expr(e.value, env)
+            env[e.target.id] = v_
+            return v_
         if isinstance(e, ast.Call):
             f = self.expr(e.func, env)
             if any(isinstance(a, ast.Starred) for a in e.args) or any(k.arg is None for k in e.keywords):
                 raise self.err(e, 'star arguments')
             args = [self.expr(a, env) for a in e.args]
             kwargs = {k.arg: self.expr(k.value, env) for k in e.keywords}
+            if isinstance(f, _DictMethod):
+                if f.how == 'get':
+                    return f.d.get(args[0], args[1] if len(args) > 1 else None)
+                if f.how == 'items':
+                    return [tuple(x) for x in f.d.items()]
+                if f.how == 'keys':
+                    return list(f.d.keys())
+                if f.how == 'values':
+                    return list(f.d.values())
+                if f.how == 'pop':
+                    return f.d.pop(*args)
+                return f.d.setdefault(*args)
             if isinstance(f, _ListAppend):
                 if f.how == 'append':
                     f.lst.append(args[0])
@@ -523,6 +605,11 @@ class PosInterp:
                 return self.call_function(f.fn, [f.recv] + args, kwargs)
             return self.call_value(f, args, kwargs, e)
         raise self.err(e, 'expression')
+
+
+class _DictMethod:
+    def __init__(self, d: dict, how: str) -> None:
+        self.d, self.how = d, how
 
 
 class _ListAppend:
